@@ -10,6 +10,7 @@ Two kinds of cases:
 """
 import array
 import asyncio
+import errno
 import itertools
 import logging
 
@@ -47,7 +48,7 @@ def _mk_data(kind, raw):
 
 def _run_stream(case):
     from tornado.ioloop import IOLoop
-    from tornado.iostream import StreamBufferFullError, StreamClosedError
+    from tornado.iostream import IOStream, StreamBufferFullError, StreamClosedError
     from harness.fake_iostream import FakeIOStream, Err
     from harness.vclock import run_virtual, settle
 
@@ -58,7 +59,27 @@ def _run_stream(case):
     reported = []
     order = []
 
+    cfut = []
+
+    def poll_connect():
+        if cfut and cfut[0] is not None and cfut[0].done():
+            f = cfut[0]
+            cfut[0] = None
+            e = None if f.cancelled() else f.exception()
+            if f.cancelled():
+                events.append(Tag("conn-cancelled"))
+            elif e is None:
+                events.append(Tag("connected"))
+            elif isinstance(e, StreamClosedError):
+                events.append(Tag("connfail"))
+            else:
+                events.append(Tag("conn-weird"))
+
     def poll():
+        _poll_writes()
+        poll_connect()
+
+    def _poll_writes():
         for i, f in enumerate(futs):
             if not reported[i] and f.done():
                 reported[i] = True
@@ -73,7 +94,30 @@ def _run_stream(case):
                 else:
                     events.append([Tag("weird"), i])
 
+    class _Sock:
+        """what IOStream.connect/_handle_connect need from a non-blocking socket"""
+
+        def __init__(self, ok):
+            self.ok = ok
+
+        def connect(self, address):
+            raise BlockingIOError(errno.EINPROGRESS, "scripted EINPROGRESS")
+
+        def getsockopt(self, level, opt):
+            return 0 if self.ok else errno.ECONNREFUSED
+
+        def fileno(self):
+            return -1
+
     class S(FakeIOStream):
+        # the real client-side connect path of IOStream, over the scripted socket
+        connect = IOStream.connect
+        _handle_connect = IOStream._handle_connect
+
+        def _handle_write(self):
+            poll_connect()      # _handle_events runs _handle_connect just before _handle_write
+            super()._handle_write()
+
         def write_to_fd(self, data):
             poll()
             offered = len(data)
@@ -114,6 +158,11 @@ def _run_stream(case):
             s._write_buffer._large_buf_threshold = case["thr"]
         for st in case["script"]:
             s.send_script.append("block" if st == "b" else Err() if st == "e" else int(st))
+        if case.get("conn") is not None:
+            s.socket = _Sock(case["conn"])
+            cfut.append(s.connect(("192.0.2.1", 9)))
+            cfut[0].add_done_callback(lambda f: f.cancelled() or f.exception())
+            events.append(Tag("connect"))
 
         def snap():
             if s.closed():
@@ -195,7 +244,7 @@ def _run_buf(case):
                     out.append(Tag("assert"))
                 else:
                     out.append(Tag("assert2"))
-                    return out
+                    return [out, Tag("assert2")]
         else:
             try:
                 v = b.peek(o[1])
@@ -205,7 +254,15 @@ def _run_buf(case):
                 out.append(Tag("assert"))
     flat = b"".join(bytes(x) for _, x in b._buffers)[b._first_pos:]
     out.append(_digest(flat))
-    return out
+    # second component: the final contents obtained by draining through peek/advance only
+    drained = bytearray()
+    while len(b):
+        v = b.peek(len(b))
+        n = len(v)
+        drained += bytes(v)
+        del v
+        b.advance(n)
+    return [out, _digest(bytes(drained))]
 
 
 def run_impl(case):
@@ -227,7 +284,9 @@ def coq_input(case):
                 ops.append("OClose")
         sc = ["Block" if st == "b" else "Errno" if st == "e" else "Accept %d" % st for st in case["script"]]
         mx = "None" if case["max"] is None else "(Some %d)" % case["max"]
-        return "(CStream %d %s %s %s)" % (case["thr"], mx, G.glist(ops, "op"), G.glist(sc, "sstep"))
+        cn = case.get("conn")
+        cn = "None" if cn is None else "(Some %s)" % G.gbool(cn)
+        return "(CStream %s %d %s %s %s)" % (cn, case["thr"], mx, G.glist(ops, "op"), G.glist(sc, "sstep"))
     ops = []
     for o in case["ops"]:
         if o[0] == "a":
@@ -250,6 +309,9 @@ def py_check(case, obs):
     if case["kind"] == "b":
         ref = b""
         ops = case["ops"]
+        if not (isinstance(obs, list) and len(obs) == 2 and isinstance(obs[0], list)):
+            return False
+        obs, drained = obs
         if len(obs) != len(ops) + 1:
             return False
         for o, r in zip(ops, obs):
@@ -274,7 +336,7 @@ def py_check(case, obs):
                 k = r[0]
                 if k > o[1] or k > len(ref) or (ref and k == 0) or r != _digest(ref[:k]):
                     return False
-        return obs[-1] == _digest(ref)
+        return obs[-1] == _digest(ref) and drained == _digest(ref)
     if not (isinstance(obs, list) and len(obs) == 2 and isinstance(obs[0], list)):
         return False
     events, order = obs
@@ -288,11 +350,30 @@ def py_check(case, obs):
     op_i = -1
     cur = None         # the op whose events we are reading
     expect_new_op = True
-    last_snap = [Tag("st"), 0, 0, 0, False, 0, []]
+    last_snap = [Tag("st"), 0, 0, 0, case.get("conn") is not None, 0, []]
     wcount = 0
     after_refusal = False
-    for e in events:
+    connecting = False
+    for k, e in enumerate(events):
         t = _tag(e)
+        if t == "connect":
+            if k != 0 or case.get("conn") is None:
+                return False
+            connecting = True
+            continue
+        if k == 0 and case.get("conn") is not None:
+            return False
+        if t in ("connected", "connfail"):
+            if not connecting:
+                return False
+            connecting = False
+            if t == "connected" and (cur is None or cur[0] != "r" or not case["conn"]):
+                return False
+            if t == "connfail":
+                is_closed = True
+            continue
+        if connecting and t in ("send", "block", "errno", "ok"):
+            return False        # nothing reaches the transport before the connection is up
         if expect_new_op:
             op_i += 1
             if op_i >= len(ops):
@@ -353,10 +434,10 @@ def py_check(case, obs):
                 if e[1] > 0 and not e[4]:
                     return False
                 # every future whose bytes are all out has been resolved
-                if any(wend[i] <= len(sent) for i in pending):
+                if not connecting and any(wend[i] <= len(sent) for i in pending):
                     return False
             else:
-                if not is_closed or pending:
+                if not is_closed or pending or connecting:
                     return False
             if after_refusal and e != last_snap:
                 return False
@@ -380,8 +461,9 @@ def _payload(j, n):
     return bytes((37 * j + 1 + i) % 256 for i in range(n)).decode("latin-1")
 
 
-def mk_stream(thr, mx, ops, script):
-    return {"kind": "s", "thr": thr, "max": mx, "ops": ops, "script": script}
+def mk_stream(thr, mx, ops, script, conn=None):
+    """conn: None = already connected; True/False = connect() called first, succeeding/failing"""
+    return {"kind": "s", "thr": thr, "max": mx, "ops": ops, "script": script, "conn": conn}
 
 
 def mk_buf(thr, ops):
@@ -409,7 +491,7 @@ def _rand_stream(rng, thr, nops, sizes, accepts, p_err=0.04, mx_choices=(None,))
             script.append("b")
         else:
             script.append(rng.choice(accepts))
-    return mk_stream(thr, rng.choice(mx_choices), ops, script)
+    return mk_stream(thr, rng.choice(mx_choices), ops, script, rng.choice([None, None, None, True, True, False]))
 
 
 def _rand_buf(rng, thr, nops, sizes, advs):
@@ -438,6 +520,12 @@ def corpus_cases():
         mk_stream(2, None, [W(0, 3), W(1, 1), ["r"], W(2, 1)], ["b", 3, "e"]),
         # zero-length write resolves only after the earlier bytes
         mk_stream(3, None, [W(0, 2), W(1, 0), ["r"]], ["b", 1, 0]),
+        # writes queued while the connection is pending go out, in order, once it is up
+        mk_stream(3, None, [W(0, 2), W(1, 0), W(2, 4), ["r"], ["r"]], [3, "b"], True),
+        # a failed connect fails every queued write
+        mk_stream(2, None, [W(0, 1), W(1, 3), ["r"], W(2, 1)], [], False),
+        # close while connecting
+        mk_stream(2, 4, [W(0, 3), W(1, 3), ["c"], ["r"]], [], True),
         mk_buf(REAL_THR, [["a", 0, 2048, 0], ["a", 5, 1, 0], ["v", 2048], ["p", 10], ["a", 9, 2049, 1], ["v", 2]]),
         mk_buf(2, [["a", 0, 1, 0], ["a", 1, 1, 0], ["a", 2, 1, 0], ["v", 1], ["v", 5], ["p", 0], ["p", 9]]),
     ]
@@ -461,43 +549,51 @@ def gen_cases(rng, tier):
     for _ in range(250 if quick else 1000):
         thr = rng.choice([1, 2, 3])
         out.append(_rand_buf(rng, thr, rng.randrange(1, 10), list(range(0, thr + 3)), [1, 1, 2, 3, thr + 1, 7]))
-    for _ in range(250 if quick else 1000):
+    for _ in range(250 if quick else 600):
         out.append(_rand_buf(rng, REAL_THR, rng.randrange(1, 9), [0, 1, 1, 2047, 2048, 2049, 2049, 4500],
                              [1, 2, 2046, 2047, 2048, 2049, 2050, 4096, 4097]))
     if not quick:
-        # exhaustive: _StreamBuffer operation sequences of length <= 5 (and a quarter of length 6) over sizes {1, 2048, 2049}
-        alpha = [["a", 3, 1, 0], ["a", 7, 2048, 0], ["a", 11, 2049, 1], ["v", 1], ["v", 2048], ["v", 2049]]
-        for n in range(1, 7):
-            for seq in itertools.product(range(len(alpha)), repeat=n):
-                # an advance on an empty buffer as the very first op only repeats shorter sequences
-                if alpha[seq[0]][0] == "v":
-                    continue
-                # length <= 5: all of them; length 6: a quarter, drawn from rng (time budget)
-                if n == 6 and rng.random() >= 0.25:
-                    continue
-                out.append(mk_buf(REAL_THR, [list(alpha[i]) for i in seq] + [["p", 4800]]))
+        # exhaustive: _StreamBuffer operation sequences of length <= 5 (plus a quarter of length 6) at threshold 2 over sizes {1, 2, 3}
+        # (the same three regimes: below, at, above the threshold), and at the real 2048 threshold over sizes
+        # {1, 2048, 2049}: all sequences of length <= 4, a quarter of length 5, 4% of length 6 (CPU budget:
+        # one real-threshold case costs ~0.5 s of vm_compute)
+        for thr, sizes, advs in ((2, (1, 2, 3), (1, 2, 3)), (REAL_THR, (1, 2048, 2049), (1, 2048, 2049))):
+            alpha = [["a", 3, sizes[0], 0], ["a", 7, sizes[1], 0], ["a", 11, sizes[2], 1],
+                     ["v", advs[0]], ["v", advs[1]], ["v", advs[2]]]
+            for n in range(1, 7):
+                for seq in itertools.product(range(len(alpha)), repeat=n):
+                    # an advance on an empty buffer as the very first op only repeats shorter sequences
+                    if alpha[seq[0]][0] == "v":
+                        continue
+                    if thr == REAL_THR and ((n == 5 and rng.random() >= 0.25) or (n == 6 and rng.random() >= 0.04)):
+                        continue
+                    if thr != REAL_THR and n == 6 and rng.random() >= 0.25:
+                        continue
+                    out.append(mk_buf(thr, [list(alpha[i]) for i in seq] + [["p", 4800]]))
         # exhaustive: stream operation sequences of length <= 4 at threshold 2, all short send scripts
         salpha = ["w1", "w2", "w3", "r", "c"]
         steps = [1, 2, "b", "e"]
         scripts = [[]]
         for n in range(1, 4):
             scripts += [list(s) for s in itertools.product(steps, repeat=n)]
-        for n in range(1, 5):
-            for seq in itertools.product(salpha, repeat=n):
-                if seq[0] != "w1" and seq[0] != "w2" and seq[0] != "w3":
-                    continue
-                for sc in scripts:
-                    if n == 4 and len(sc) > 2:
+        for conn in (None, True, False):
+            for n in range(1, 5):
+                for seq in itertools.product(salpha, repeat=n):
+                    if conn is None and seq[0][0] != "w":
                         continue
-                    ops = []
-                    j = 0
-                    for a in seq:
-                        if a[0] == "w":
-                            ops.append(["w", j % 2, _payload(j, int(a[1]))])
-                            j += 1
-                        else:
-                            ops.append([a])
-                    out.append(mk_stream(2, None, ops, sc))
+                    for sc in scripts:
+                        lim = (3 if n < 4 else 2) if conn is None else (2 if n < 4 else 1)
+                        if len(sc) > lim:
+                            continue
+                        ops = []
+                        j = 0
+                        for a in seq:
+                            if a[0] == "w":
+                                ops.append(["w", j % 2, _payload(j, int(a[1]))])
+                                j += 1
+                            else:
+                                ops.append([a])
+                        out.append(mk_stream(2, None, ops, sc, conn))
     rng.shuffle(out)     # spread the cases with large literals over the coqc shards
     return out
 
@@ -529,9 +625,11 @@ def classify(case, obs):
         yield "futures-failed=" + str("fail" in tags)
         yield "memoryview-write=" + str(any(o[0] == "w" and o[1] for o in case["ops"]))
         yield "writes=%d" % sum(1 for o in case["ops"] if o[0] == "w")
+        yield "connect=" + ("none" if case.get("conn") is None else "ok" if case["conn"] else "refused")
+        yield "connected-with-queued-writes=" + str("connected" in tags and "write" in tags[:tags.index("connected")])
     else:
         yield "ops=%d" % len(case["ops"])
-        yield "assert=" + str(any(isinstance(r, Tag) for r in obs))
+        yield "assert=" + str(any(isinstance(r, Tag) for r in obs[0]))
 
 
 def signature(case, obs):
@@ -558,6 +656,8 @@ def shrink(case):
                 yield dict(case, ops=ops[:i] + [[o[0], 0, o[2]]] + ops[i + 1:])
         if case["max"] is not None:
             yield dict(case, max=None)
+        if case.get("conn") is not None:
+            yield dict(case, conn=None)
     else:
         for i, o in enumerate(ops):
             if o[0] == "a" and o[2] > 1:
@@ -576,7 +676,7 @@ TRUSTED_BASE = [
     "memoryview/bytes distinction, bytearray aliasing and CPython buffer-export rules are outside the model (payloads are byte lists)",
 ]
 ASSUMPTIONS = [
-    "the stream is not in the connecting state and callers do not cancel write futures",
+    "callers do not cancel write futures; connect() is called at most once, before any other operation",
     "write_to_fd returns 0 <= n <= len(view) (the scripted transport clamps)",
 ]
 LEVEL_TEXT = ("Machine-checked (Coq) proofs over an executable model of _StreamBuffer and of BaseIOStream.write/_handle_write/close: "
@@ -584,8 +684,10 @@ LEVEL_TEXT = ("Machine-checked (Coq) proofs over an executable model of _StreamB
               "WRITE-ready events and closes and every transport script (partial sends, EWOULDBLOCK, errors) the trace satisfies "
               "the property checker: the transport is handed exactly the next unsent bytes of the concatenated writes, a future "
               "resolves only after all bytes up to and including its own were accepted, futures resolve oldest-first, refused writes "
-              "leave the state untouched, buffered = written - sent. The model is tied to the code by replaying every generated case "
+              "leave the state untouched, buffered = written - sent; writes issued while a connect() is pending reach the transport only "
+              "after the connection is up; from any reachable state the stream is closed or fully drained after |script|+1 WRITE-ready "
+              "events. The model is tied to the code by replaying every generated case "
               "on the real classes and comparing full traces including internal buffer layout.")
-LEVEL_NOTE = ("Trusted: Coq kernel/vm_compute; the hand-written model (tied by trace correspondence only); scripted transport; "
-              "connecting state, SSL, future cancellation and real sockets are not modelled.")
+LEVEL_NOTE = ("Trusted: Coq kernel/vm_compute; the hand-written model (tied by trace correspondence only); scripted transport and "
+              "scripted socket under the real IOStream.connect/_handle_connect; SSL, future cancellation and real sockets are not modelled.")
 TECHNIQUE = "Coq proof (data refinement + trace invariant by induction over operations) + differential trace correspondence via vm_compute"
